@@ -14,6 +14,9 @@ CLAIMED = {
  "C07": ("acceptance-dominance (must-facts at the acceptance node on the CFG), data-flow rules for the accept digest / request construction, regex-AST anchoring check, interprocedural may-raise (exception-escape) analysis with taint and guard discharge",
          "Decides on all paths: every RFC 6455 section 4 obligation holds as a must-fact where the server hands the request to onConnect and where the client sets state = OPEN (17 + 10 obligations plus structural ones for token flags, duplicate detection, origin policy, extension handling), failHandshake always ends processing; the accept digest is SHA-1(key + RFC GUID) of the validated / sent key; origin patterns are anchored and matched against the whole origin; the server's answer is a subset of the offer; the client request is built from parse_url components; no exception caused by a risky library operation on peer-controlled data can leave the handshake entry points. Does not decide acceptance of exactly the HTTP grammar for arbitrary octets.",
          "3 C07"),
+ "C08": ("abstract interpretation over type atoms (own interpreter: narrowing, trace partitioning, computed callee summaries) of every Message.parse into its constructor's asserts; format extraction from class docstrings; regex-AST anchoring; guard facts for the envelope",
+         "Sound for the modelled subset, for all inputs at once: every one of the 25 parse() functions is interpreted on an arbitrary list of arbitrary values; every assert of the message constructors (and _init_app_payload/_init_forward_for) reached by a surviving abstract value is either discharged or reported with witness atoms (419 obligations); no exception other than ProtocolError/InvalidUriError and no out-of-range element access can leave parse(); ids/URIs/options at the positions documented in the class docstrings go through the matching validator, whose own extension on arbitrary input is computed (ids exactly int in 0..2^53); URI patterns are anchored; Serializer.unserialize wraps the decoder in `except Exception` and checks list / non-empty / int code / known code before parse. Does not decide equivalence of the re-marshalled value (C03 decides the structural part).",
+         "3 C08"),
  "C09": ("exhaustive product-automaton comparison of the extracted DFA (Python table under the loop's index expression, C table literal, macro-expanded C if-chain compiled to a transition relation) with a recogniser generated from the RFC 3629 ABNF; structural exit-path rules for index/state bookkeeping; who-may-be-called rule for the dispatcher",
          "Exhaustive for the automaton: every transition of every reachable state on every byte is compared with the RFC 3629 reference for language, code-point boundary and absorbing reject, in the Python validate() and decode() index forms, the C table (must equal the Python tuple) and the C unrolled macro, in three preprocessor worlds; on every exit path the offending byte's position / chunk length and the state are stored as required, a chunk fed in REJECT stays invalid, the dispatcher reaches only checked implementations and the cffi wrapper maps the result code to the 4-tuple. Assumes the compiled extension is built from the analysed C file.",
          "3 C09"),
